@@ -191,6 +191,52 @@ def integer_key_rule(repo, rep, prims):
                                         f"merges put the same data into separate bins", stmt=f"integer key through float: {ast.unparse(k)[:40]}")
 
 
+def ed_accepts_reachable_states(repo, rep, prims, models):
+    """R4.11: ed() is what the reader builds every reloaded aggregator with, so it must accept every state toJson can emit.
+    `entries` is a sum of positive weights and may be range-checked; every other accumulator (sum, mean, variance, min, max ...)
+    is the result of floating-point arithmetic - a merge of constant data leaves a variance of -1.8e-17 - and a range check on
+    it in ed() makes the library refuse documents it has written itself."""
+    import hgsa.cfg as cfgmod
+    from .c15 import edge_always_raises
+    r11 = rep.rule("R4.11", "ed() puts no range check on an accumulator other than entries (every emitted state reloads)", floor=19)
+    for c in prims:
+        ed = repo.own_method(c, "ed")
+        m = models[c.name]
+        acc = {a for a in m.acc if a != "entries"}
+        # ed parameters that carry an accumulator: same name, or stored into out.<acc>
+        carries = {}
+        for p in ed.params:
+            if p in acc:
+                carries[p] = p
+        for st in walk_local_stmt(ed.node):
+            if isinstance(st, ast.Assign) and len(st.targets) == 1 and isinstance(st.targets[0], ast.Attribute) and st.targets[0].attr in acc:
+                for x in ast.walk(st.value):
+                    if isinstance(x, ast.Name) and x.id in ed.params and x.id != "entries" and x.id != (ed.params[0] if ed.params else None):
+                        carries.setdefault(x.id, st.targets[0].attr)
+        # properties whose setter stores an accumulator (variance -> varianceTimesEntries)
+        for p in ed.params:
+            if p not in carries:
+                prop = repo.lookup(c, p)
+                if isinstance(prop, FuncInfo) and prop.is_property and any(a in ast.unparse(prop.node) for a in acc):
+                    carries[p] = p
+        g = cfgmod.build(ed.node)
+        bad = []
+        for n in g.nodes:
+            if n.kind != "test":
+                continue
+            for cmp in ast.walk(n.ast):
+                if isinstance(cmp, ast.Compare) and len(cmp.ops) == 1 and isinstance(cmp.ops[0], (ast.Lt, ast.LtE, ast.Gt, ast.GtE)):
+                    names = {x.id for x in ast.walk(cmp) if isinstance(x, ast.Name)} & set(carries)
+                    if names and (edge_always_raises(g, n, "T")[0] or edge_always_raises(g, n, "F")[0]):
+                        bad.append((n, cmp, sorted(names)[0]))
+        r11.ob(not bad, f"{c.name}.ed: no range check on {sorted(acc) or 'accumulators'}")
+        for n, cmp, p in bad:
+            rep.finding("R4.11", ed, cmp, f"{c.name}.ed rejects `{ast.unparse(cmp)}`: `{p}` carries the accumulator `{carries[p]}`, which is the result of "
+                        f"floating-point arithmetic (a merge of almost constant data leaves a tiny negative variance; sums and extrema have any "
+                        f"sign), so toJson emits states that fromJson then refuses - the library cannot read back its own document",
+                        stmt=f"ed range-checks accumulator {p}")
+
+
 def run(repo, rep, tier):
     rep.extra["explanation"] = (
         "Agreement analysis between each toJsonFragment (writer) and fromJsonFragment -> ed -> __init__ (reader) of the 19 "
@@ -226,6 +272,7 @@ def run(repo, rep, tier):
     # the reloaded container's quantity name is written onto its own, fresh function object (never onto a shared default)
     rep.borrow(repo, "C06", {"R6.5": ("R4.9", "the name read from JSON is written onto a function object created for this container alone", 14)})
     integer_key_rule(repo, rep, prims)
+    ed_accepts_reachable_states(repo, rep, prims, models)
     r7 = rep.rule("R4.7", "numbers written into serialised fields by _numpy are Python floats (float()/int() applied to numpy reductions)", floor=20)
     for c in prims:
         numpy_scalar_rule(repo, rep, r7, c, models[c.name])
@@ -339,7 +386,7 @@ def run(repo, rep, tier):
         # ---------------- R4.3
         tags_and_names(repo, rep, r3, c, m, wf, wkeys, rm)
         # ---------------- R4.5
-        mode_preservation(repo, rep, r5, c, m, ed)
+        mode_preservation(repo, rep, r5, c, m, repo.method(c, "ed"))
         # ---------------- R4.6
         for n in walk_local_stmt(rm.f.node):
             if isinstance(n, ast.Call):
